@@ -82,6 +82,7 @@ func runC03(w *W) {
 	so := tgenOpts{MaxStructs: 1 + t.Intn(4, "sch.structs"), MaxFields: 1 + t.Intn(8, "sch.fields"), MaxDepth: 1 + t.Intn(3, "sch.depth"),
 		BigIDs: t.Chance(1, 3, "sch.bigids"), Aliases: t.Chance(1, 3, "sch.alias"), Recursive: t.Chance(1, 3, "sch.rec"), JSConv: t.Chance(1, 3, "sch.jsconv")}
 	so.SplitFiles = t.Chance(1, 4, "sch.split")
+	so.Typedefs, so.ZeroID = t.Chance(1, 3, "sch.typedefs"), t.Chance(1, 4, "sch.zeroid")
 	sch := genSchema(t, so)
 	po := thrift.Options{}
 	// thrift response base: a root field of type base.BaseResp is extracted into the object the caller put
